@@ -11,6 +11,7 @@ EXPLANATION = (
     "R19-clone: Clone is derived (or a field-wise hand-written aggregate) and no field's type tree combines sharing (Rc/Arc/&) "
     "with interior mutability; external types must be in the table of value-like containers. R19-is-empty: is_empty reads only "
     "fields in Reset(S)."
+    ' R19-is-empty-exact: is_empty is computed without any float-to-integer estimate. R19-clear-keeps-config: a field no other method writes may only be stored back unchanged by clear (whole-`*self` stores are expanded through the constructor).'
 )
 NOT_DECIDED = "`same answers after any further identical operation sequence` as such — follows if all behaviour-influencing state is reset, which is what is decided, assuming configuration fields never change (checked)."
 ASSUMPTIONS = [
